@@ -149,7 +149,7 @@ func (g *gen) reorg() {
 		n = tip // all the way to genesis
 	}
 	// Keep the chain of single filter rollbacks this needs short.
-	const maxFR = 24
+	const maxFR = 10
 	if target := tip - n; g.m.FTip() > target+maxFR {
 		n = tip - (g.m.FTip() - maxFR)
 	}
